@@ -24,6 +24,7 @@ import (
 type RecSpec struct {
 	Pos int `json:"pos"` // 0 unique position, 1 empty position, 2 same position as the previous record of the batch
 	M   int `json:"m"`   // 1 = matches the condition of a conditional processor
+	C   int `json:"c"`   // 1 = the condition of a conditional processor fails to evaluate for this record
 }
 
 // CallShape is the reply shape of one Process call.
@@ -107,7 +108,7 @@ func (c FCase) size() int {
 	for _, b := range c.Batches {
 		n += 4 + 4*len(b)
 		for _, r := range b {
-			n += r.Pos + r.M
+			n += r.Pos + r.M + 2*r.C
 		}
 	}
 	ps := func(p ProcScript) int {
@@ -146,17 +147,20 @@ const (
 	// a never-answered record got a result after all: a conditional RunnableProcessor replaces a
 	// long plugin output by one ErrorRecord, which overrides the plugin's nil
 	shNilForeverOverridden = "proc-nil-forever-overridden"
-	shProcErrorNil         = "proc-error-nil"
-	shProcSplit            = "proc-split"
-	shProcFilter           = "proc-filter"
-	shProcError            = "proc-error"
-	shProcMulti0           = "proc-multi0"
-	shProcMulti1           = "proc-multi1"
-	shProcChangePos        = "proc-changepos"
-	shProcEmptyPos         = "proc-emptypos"
-	shCondShort            = "proc-condition-short-output"      // only in TestC09ConditionalInWorker
-	shSplitEmptyPos        = "proc-split-of-empty-position"     // a split result for a record the source gave an empty position
-	shSplitDupPos          = "proc-split-of-duplicate-position" // a split result for a record whose source position another record of the batch carries too
+	// the source handed over a record for which the condition of the conditional processor fails to
+	// evaluate (documented handling: that record gets the condition error, i.e. is dead-lettered)
+	shCondEvalFails = "proc-condition-eval-fails"
+	shProcErrorNil  = "proc-error-nil"
+	shProcSplit     = "proc-split"
+	shProcFilter    = "proc-filter"
+	shProcError     = "proc-error"
+	shProcMulti0    = "proc-multi0"
+	shProcMulti1    = "proc-multi1"
+	shProcChangePos = "proc-changepos"
+	shProcEmptyPos  = "proc-emptypos"
+	shCondShort     = "proc-condition-short-output"      // only in TestC09ConditionalInWorker
+	shSplitEmptyPos = "proc-split-of-empty-position"     // a split result for a record the source gave an empty position
+	shSplitDupPos   = "proc-split-of-duplicate-position" // a split result for a record whose source position another record of the batch carries too
 
 	shSrcEmptyPos   = "src-empty-position"
 	shSrcDupPos     = "src-duplicate-position"
@@ -183,7 +187,7 @@ var connShapes = []string{shAckPartial, shAckNack, shAckWrongPos, shAckSurplus, 
 
 func allShapes() []string {
 	out := []string{shNone, shProcZero, shProcShort, shProcLong, shProcNil, shProcNilForever, shProcErrorNil, shProcSplit,
-		shProcFilter, shProcError, shProcMulti0, shProcMulti1, shProcChangePos, shProcEmptyPos, shCondShort, shSplitEmptyPos, shSplitDupPos, shNilForeverOverridden,
+		shProcFilter, shProcError, shProcMulti0, shProcMulti1, shProcChangePos, shProcEmptyPos, shCondShort, shSplitEmptyPos, shSplitDupPos, shNilForeverOverridden, shCondEvalFails,
 		shSrcEmptyPos, shSrcDupPos, shSrcEmptyBatch, shErrProcOpen, shErrProcClose}
 	for _, role := range []string{"src", "dst", "dlq"} {
 		for _, s := range connShapes {
@@ -196,7 +200,7 @@ func allShapes() []string {
 // benign shapes: the engine documents a handling that keeps the pipeline running
 var benignShapes = map[string]bool{
 	shProcSplit: true, shProcFilter: true, shProcError: true, shProcMulti0: true, shProcMulti1: true,
-	shProcChangePos: true, shProcEmptyPos: true, shSrcEmptyBatch: true, shNilForeverOverridden: true,
+	shProcChangePos: true, shProcEmptyPos: true, shSrcEmptyBatch: true, shNilForeverOverridden: true, shCondEvalFails: true,
 	"dst-" + shAckPartial: true, "dst-" + shAckNack: true, "dlq-" + shAckPartial: true,
 }
 
@@ -248,6 +252,9 @@ type world struct {
 	violations []violation
 	emptyRoot  map[string]bool // read records whose source position is empty
 	dupRoot    map[string]bool // read records that share their source position with a neighbour
+	failRoot   map[string]bool // read records whose condition fails to evaluate
+	mayDLQ     map[string]bool // read records with a legitimate reason to be dead-lettered (see e2e clause)
+	dlqWrites  map[string]int  // dead-letter records written per read record
 	nilCalls   map[string]int  // proc + "|" + root -> Process calls that contained the nil-forever record
 	maxBatch   int
 	log        []string
@@ -271,7 +278,7 @@ const maxFakeCalls = 50_000
 
 func newWorld(c FCase, avoid map[string]bool) *world {
 	return &world{c: c, avoid: avoid, outcomes: map[string]map[string]outcome{}, said: map[string]map[string]int{},
-		dlqOK: map[string]bool{}, emptyRoot: map[string]bool{}, dupRoot: map[string]bool{}, firedSet: map[string]bool{}, excluded: map[string]bool{}, nilCalls: map[string]int{},
+		dlqOK: map[string]bool{}, emptyRoot: map[string]bool{}, dupRoot: map[string]bool{}, failRoot: map[string]bool{}, mayDLQ: map[string]bool{}, dlqWrites: map[string]int{}, firedSet: map[string]bool{}, excluded: map[string]bool{}, nilCalls: map[string]int{},
 		idle: make(chan struct{}, 1)}
 }
 
@@ -491,6 +498,12 @@ func (s *fakeSource) Read(ctx context.Context) ([]opencdc.Record, error) {
 				w.dupRoot["r"+strconv.Itoa(k-1)] = true
 			}
 			recs[i] = mkRecord(k, pos, rs.M)
+			if rs.C == 1 {
+				recs[i].Metadata[metaCond] = condJunk
+				w.failRoot["r"+strconv.Itoa(k)] = true
+				w.fireLocked(shCondEvalFails)
+				w.mayDLQ["r"+strconv.Itoa(k)] = true
+			}
 			w.reads = append(w.reads, readRec{id: recID(recs[i]), pos: pos})
 		}
 		if len(specs) == 0 {
@@ -579,6 +592,8 @@ type scriptPlugin struct {
 	// full input of the surrounding RunnableProcessor.Process call (Real+Cond only), used to
 	// recognise the known condition-short-output shape
 	curFull []opencdc.Record
+	lastIn  []opencdc.Record
+	lastOut []sdk.ProcessedRecord
 }
 
 func (p *scriptPlugin) Specification() (sdk.Specification, error) {
@@ -636,13 +651,8 @@ func (p *scriptPlugin) Process(_ context.Context, recs []opencdc.Record) []sdk.P
 		outLen = k
 	}
 	if p.sc.Real && p.sc.Cond && p.curFull != nil {
-		pattern := make([]int, len(p.curFull))
-		for i, r := range p.curFull {
-			if r.Metadata[metaMatch] == "1" {
-				pattern[i] = 1
-			}
-		}
-		if condShapeClass(pattern, outLen) == clsShortInner {
+		pattern, fails := patternOf(p.curFull)
+		if condShapeClass(pattern[:firstFail(pattern, fails)], outLen) == clsShortInner {
 			if w.avoids(shCondShort) {
 				outLen = k
 			} else {
@@ -670,7 +680,35 @@ func (p *scriptPlugin) Process(_ context.Context, recs []opencdc.Record) []sdk.P
 		}
 		kinds[j] = kind
 	}
-	return buildOutput(kinds, recs, shape.CapExtra, p.name)
+	// ground truth for the end-to-end clause: which records does the plugin itself fail?
+	w.mu.Lock()
+	for j, kind := range kinds {
+		if j < k && (kind == KError || kind == KErrorNil) {
+			w.mayDLQ[rootOf(recID(recs[j]))] = true
+		}
+	}
+	if outLen > k && p.sc.Real && p.sc.Cond && len(p.curFull) > 0 {
+		// documented: a longer output is replaced by ONE ErrorRecord, i.e. the first record of the call fails
+		w.mayDLQ[rootOf(recID(p.curFull[0]))] = true
+	}
+	w.mu.Unlock()
+	p.lastIn = append([]opencdc.Record(nil), recs...)
+	p.lastOut = buildOutput(kinds, recs, shape.CapExtra, p.name)
+	return p.lastOut
+}
+
+// patternOf reads match bits and evaluation failures off the records' metadata.
+func patternOf(recs []opencdc.Record) (pattern, fails []int) {
+	pattern, fails = make([]int, len(recs)), make([]int, len(recs))
+	for i, r := range recs {
+		if r.Metadata[metaMatch] == "1" {
+			pattern[i] = 1
+		}
+		if r.Metadata[metaCond] == condJunk {
+			fails[i] = 1
+		}
+	}
+	return pattern, fails
 }
 
 func (p *scriptPlugin) nilForever(r opencdc.Record) bool {
@@ -712,9 +750,27 @@ func (r *recProc) Process(ctx context.Context, recs []opencdc.Record) []sdk.Proc
 	for i, rec := range recs {
 		ids[i] = recID(rec)
 	}
+	var orig []opencdc.Record
+	if r.plugin.sc.Real {
+		orig = make([]opencdc.Record, len(recs))
+		for i := range recs {
+			orig[i] = recs[i].Clone()
+		}
+	}
+	callsBefore := r.plugin.calls
 	r.plugin.curFull = recs
 	out := r.inner.Process(ctx, recs)
 	r.plugin.curFull = nil
+	if r.plugin.sc.Real && !r.w.runaway.Load() {
+		// the reference merge of TestC09Conditional, applied to every call the worker makes
+		pattern, fails := patternOf(orig)
+		if key, detail := refMerge(mergeObs{cond: r.plugin.sc.Cond, pattern: pattern, fail: fails, orig: orig, res: out,
+			plugCalls: r.plugin.calls - callsBefore, plugIn: r.plugin.lastIn, plugOut: r.plugin.lastOut}); key != "" {
+			r.w.mu.Lock()
+			r.w.violateLocked(key, "in the worker, "+r.name+".Process("+strings.Join(ids, " ")+"): "+detail)
+			r.w.mu.Unlock()
+		}
+	}
 
 	w := r.w
 	w.mu.Lock()
@@ -855,6 +911,29 @@ func dlqRootID(r opencdc.Record) string {
 	return rootOf(id)
 }
 
+// checkDeadLetter is the end-to-end clause of TestC09ConditionalInWorker, judged when the engine
+// writes a dead-letter record: every source record gets one outcome (at most one dead-letter
+// record), only a record with a reason of its own is dead-lettered (its condition fails, the plugin
+// failed it, the documented long-output error hit it, a destination refused it), and a condition
+// error is only ever reported for the record whose condition fails.
+func (w *world) checkDeadLetter(root string, r opencdc.Record) {
+	w.mu.Lock()
+	defer w.mu.Unlock()
+	trig := w.triggerLocked()
+	w.dlqWrites[root]++
+	if w.dlqWrites[root] > 1 {
+		w.violateLocked("C09/e2e/dead-lettered-twice/"+trig, fmt.Sprintf("record %s is written to the DLQ for the %d. time", root, w.dlqWrites[root]))
+	}
+	nackErr, _ := r.Metadata.GetConduitDLQNackError()
+	if strings.Contains(nackErr, "failed evaluating condition") && !w.failRoot[root] {
+		w.violateLocked("C09/e2e/condition-error-on-wrong-record/"+trig,
+			fmt.Sprintf("record %s (its condition evaluates fine) is dead-lettered with another record's condition error: %s", root, nackErr))
+	} else if !w.mayDLQ[root] {
+		w.violateLocked("C09/e2e/healthy-record-dead-lettered/"+trig,
+			fmt.Sprintf("record %s is dead-lettered (%s) although neither its condition, the plugin nor a destination failed it", root, nackErr))
+	}
+}
+
 func (d *fakeDest) Write(_ context.Context, recs []opencdc.Record) error {
 	w := d.w
 	w.enter()
@@ -873,6 +952,9 @@ func (d *fakeDest) Write(_ context.Context, recs []opencdc.Record) error {
 		id := recID(r)
 		if d.role == "dlq" {
 			id = dlqRootID(r)
+			if w.c.Test == "inworker" {
+				w.checkDeadLetter(id, r)
+			}
 		}
 		ids[i] = id
 		d.pending = append(d.pending, pend{piece: id, pos: append([]byte(nil), r.Position...)})
@@ -1031,6 +1113,7 @@ func (d *fakeDest) Ack(context.Context) ([]connector.DestinationAck, error) {
 			m[piece] = 1
 		} else {
 			m[piece] = 2
+			w.mayDLQ[rootOf(piece)] = true
 		}
 	}
 	if len(w.log) < 400 {
